@@ -78,6 +78,28 @@ def build(case):
     return A, y, x0, u0
 
 
+def lay2d(case, v):
+    """the caller's iterate as a genuinely 2-D array in a memory layout that cannot be flattened without a copy
+    (case["layout2d"] = dict(shape, kind)); values in C order are those of the 1-D vector v"""
+    lay = case.get("layout2d")
+    if not lay:
+        return v.copy(), None
+    sh = tuple(lay["shape"])
+    v2 = v.reshape(sh)
+    if lay["kind"] == "F":
+        return np.asfortranarray(v2.copy()), sh
+    if lay["kind"] == "T-view":
+        return np.ascontiguousarray(v2.T).T, sh
+    vol = np.full((sh[0], 3, sh[1]), 7.5, dtype=v.dtype)
+    w = vol[:, 1, :]
+    w[...] = v2
+    return w, sh
+
+
+def flat(v):
+    return np.array(v, copy=True, order="C").reshape(-1)
+
+
 def store(a):
     a = np.asarray(a)
     return np.stack([a.real, a.imag], axis=-1).tolist()
@@ -120,18 +142,19 @@ def np_prox(case, a, v):
     raise ValueError(g)
 
 
-def sp_prox(sp, case, n):
+def sp_prox(sp, case, n, shape=None):
     g, lam = case["g"], case.get("lam", 0.0)
+    shp = list(shape) if shape else [n]
     if g == "none":
         return None
     if g == "noop":
-        return sp.prox.NoOp([n])
+        return sp.prox.NoOp(shp)
     if g == "l1":
-        return sp.prox.L1Reg([n], lam)
+        return sp.prox.L1Reg(shp, lam)
     if g == "l2":
-        return sp.prox.L2Reg([n], lam)
+        return sp.prox.L2Reg(shp, lam)
     if g == "box":
-        return sp.prox.BoxConstraint([n], case["box"][0], case["box"][1])
+        return sp.prox.BoxConstraint(shp, case["box"][0], case["box"][1])
     raise ValueError(g)
 
 
@@ -305,22 +328,26 @@ def run_gm(sp, case):
     n = A.shape[1]
     Lc = lipschitz(A)
     alpha = case["frac"] / Lc
-    x = x0.copy()
+    x, sh = lay2d(case, x0)
     tr = {}
     # accelerate is passed only when it is on: the documented default (False) is part of "when not accelerated"
     akw = {"accelerate": True} if case["acc"] else ({} if case["seed"] % 2 else {"accelerate": False})
-    alg = sp.alg.GradientMethod(make_gradf(sp, case, A, y, n, tr), x, alpha, proxg=sp_prox(sp, case, n),
+    gradf = make_gradf(sp, case, A, y, n, tr)
+    if sh:
+        g1 = gradf
+        gradf = lambda v: g1(flat(v)).reshape(sh)            # noqa: E731  (fresh array in the iterate's 2-D shape)
+    alg = sp.alg.GradientMethod(gradf, x, alpha, proxg=sp_prox(sp, case, n, sh),
                                 max_iter=case["niter"], **akw)
     obs = []
     buffer_bad = None
     while not alg.done():
         alg.update()
-        obs.append(dict(x=alg.x.copy(), z=alg.z.copy() if case["acc"] else None,
+        obs.append(dict(x=flat(alg.x), z=flat(alg.z) if case["acc"] else None,
                         t=float(alg.t) if case["acc"] else 0.0, resid=float(alg.resid)))
         if "buf" in tr and buffer_bad is None and not np.array_equal(tr["buf"], tr["last"]):
             buffer_bad = dict(k=len(obs), expected=store(tr["last"]), observed=store(tr["buf"]))
     inplace = alg.x is x
-    return dict(A=A, y=y, x0=x0, L=Lc, alpha=alpha, obs=obs, x_final=x, inplace=inplace, buffer_bad=buffer_bad,
+    return dict(A=A, y=y, x0=x0, L=Lc, alpha=alpha, obs=obs, x_final=flat(x), inplace=inplace, buffer_bad=buffer_bad,
                 aliased=tr.get("aliased"))
 
 
@@ -467,19 +494,25 @@ def run_pd(sp, case, start=None, niter=None):
     tau, sigma = pd_steps(case, A)
     tau_in, sigma_in = snap(tau), snap(sigma)
     AH = A.conj().T
-    x, u = x0.copy(), u0.copy()
-    proxg = sp_prox(sp, dict(case, g="noop") if case["g"] == "none" else case, n)
-    alg = sp.alg.PrimalDualHybridGradient(sp.prox.L2Reg([m], 1, y=-y), proxg, lambda v: A @ v, lambda v: AH @ v,
+    x, sh = lay2d(case, x0)
+    u = u0.copy()
+    proxg = sp_prox(sp, dict(case, g="noop") if case["g"] == "none" else case, n, sh)
+    Aop, AHop = (lambda v: A @ v), (lambda v: AH @ v)
+    if sh:
+        Aop, AHop = (lambda v: A @ flat(v)), (lambda w: (AH @ w).reshape(sh))
+        if isinstance(tau, np.ndarray):
+            tau = tau.reshape(sh)
+    alg = sp.alg.PrimalDualHybridGradient(sp.prox.L2Reg([m], 1, y=-y), proxg, Aop, AHop,
                                           x, u, tau, sigma, theta=case["theta"], gamma_primal=case["gp"],
                                           gamma_dual=case["gd"], max_iter=niter or case["niter"])
     obs = []
     while not alg.done():
         alg.update()
-        obs.append(dict(x=alg.x.copy(), u=alg.u.copy(), xext=alg.x_ext.copy(), tau=snap(alg.tau), sigma=snap(alg.sigma),
+        obs.append(dict(x=flat(alg.x), u=alg.u.copy(), xext=flat(alg.x_ext), tau=snap(flat(alg.tau) if isinstance(alg.tau, np.ndarray) else alg.tau), sigma=snap(alg.sigma),
                         resid=float(alg.resid)))
-    wrote_steps = (isinstance(tau, np.ndarray) and not np.array_equal(tau, tau_in)) or \
+    wrote_steps = (isinstance(tau, np.ndarray) and not np.array_equal(flat(tau), flat(tau_in))) or \
                   (isinstance(sigma, np.ndarray) and not np.array_equal(sigma, sigma_in))
-    return dict(A=A, y=y, x0=x0, u0=u0, tau=tau_in, sigma=sigma_in, obs=obs, x_final=x, u_final=u,
+    return dict(A=A, y=y, x0=x0, u0=u0, tau=tau_in, sigma=sigma_in, obs=obs, x_final=flat(x), u_final=u,
                 inplace=(alg.x is x, alg.u is u), wrote_steps=wrote_steps)
 
 
@@ -610,6 +643,9 @@ def gen_common(rng, pd=False):
     if g == "box":
         lo = rng.choice([-1.0, -0.25, 0.0])
         c["box"] = [lo, lo + rng.choice([0.25, 0.5, 2.0])]
+    if n in (4, 6, 8) and rng.random() < 0.5:
+        # the caller's primal array is 2-D in a layout that cannot be flattened without a copy
+        c["layout2d"] = dict(shape=[2, n // 2], kind=rng.choice(["F", "T-view", "volume-slice"]))
     return c
 
 
